@@ -6,14 +6,14 @@
 
    Measured (4 workers, this sandbox under load):
      MC_NodeStore_quick.cfg     4 option sets (hf 1/2, df 1/2/max, hashed / hash-skipped), 3 blocks, no fork
-                                154 255 states generated / 65 844 distinct, depth 11, 23-50 s
+                                154 255 states generated / 65 844 distinct, depth 11, 15-50 s
      MC_NodeStore_thorough.cfg  hf 1, df max, 3 blocks + one fork block (minor versions)
-                                2 255 135 generated / 726 641 distinct, ~10 min
+                                2 255 135 generated / 726 641 distinct, 2.5-10 min
      MC_NodeStore_matrix.cfg    18 option sets (hf 1/2/max x df 1/2/max x hashed/skipped), 3 blocks
-                                807 713 generated / 340 538 distinct, ~5 min
+                                807 713 generated / 340 538 distinct, ~5 min (not run by the check)
      MC_NodeStore_as.cfg        account-like trie "a" + storage-like trie "s" (root may come from the deduped space, only
                                 reached through "a", checkpointed only if its root version >= base)
-                                884 939 generated / 318 711 distinct, ~4 min
+                                873 323 generated / 314 039 distinct, 1-4 min
    RetainedReadable, PrunedNeverDifferent, NoWrongNode, RootCanonical, PrunedUnreadable hold in all of them.
 
    The invariants have teeth - each deliberately broken variant below is caught (MC_NodeStore_teeth_*.cfg, not run by
@@ -21,7 +21,7 @@
      rootdedup  root of a main trie may be served from the deduped space  -> PrunedUnreadable / PrunedNeverDifferent
                 violated after 3 206 states (a pruned root silently reads the checkpointed root's content)
      filter     checkpoint version filter  >= base  turned into  > base   -> RetainedReadable violated after 3 314 states
-     storage    storage-like trie written exactly at the base not checkpointed -> RetainedReadable, 2 237 states
+     storage    storage-like trie written exactly at the base not checkpointed -> RetainedReadable, 15 716 states
      deepfork   a fork that branches below the target survives above it   -> PrunedNeverDifferent, 180 869 states
      rootcache  a root below the target is still in the root cache        -> NoWrongNode, 182 403 states
      unaligned  prune target not a multiple of the hist partition factor  -> PrunedNeverDifferent, 1 455 794 states
